@@ -140,44 +140,83 @@ struct Entry { const char *name; fn_t fn; };
 ''' % LIMIT
 
 HARNESS_MAIN = r'''
+struct Req { std::string name; int N, M, P, Q; u64 d[6]; };
+
+static void serve(const std::vector<Req> &reqs, size_t from, int fd) {
+  // child: evaluate requests from `from` on, one result line per request; dies on undefined behaviour
+  for (size_t k = from; k < reqs.size(); ++k) {
+    const Req &r = reqs[k];
+    fn_t fn = NULL;
+    for (const Entry *e = table; e->name; ++e) if (r.name == e->name) { fn = e->fn; break; }
+    std::string line;
+    if (!fn) {
+      line = "NOFN";
+    } else {
+      Out out;
+      fn(r.N, r.M, r.P, r.Q, r.d, out);
+      line = out.huge ? std::string("HUGE") : (out.s.empty() ? std::string("-") : out.s);
+    }
+    line += "\n";
+    size_t off = 0;
+    while (off < line.size()) {
+      ssize_t w = write(fd, line.data() + off, line.size() - off);
+      if (w <= 0) _exit(3);
+      off += (size_t) w;
+    }
+  }
+  _exit(0);
+}
+
 int main() {
 #ifdef _OPENMP
   omp_set_num_threads(1);
 #endif
+  std::vector<Req> reqs;
   std::string line;
   while (std::getline(std::cin, line)) {
     std::istringstream ss(line);
-    std::string name;
-    int N, M, P, Q;
-    u64 d[6] = {1, 1, 1, 1, 1, 1};
-    ss >> name >> N >> M >> P >> Q;
-    for (int i = 0; i < 6; ++i) { u64 v; if (ss >> v) d[i] = v; }
-    fn_t fn = NULL;
-    for (const Entry *e = table; e->name; ++e) if (name == e->name) { fn = e->fn; break; }
-    if (!fn) { std::cout << "R NOFN" << std::endl; continue; }
+    Req r;
+    for (int i = 0; i < 6; ++i) r.d[i] = 1;
+    if (!(ss >> r.name >> r.N >> r.M >> r.P >> r.Q)) continue;
+    for (int i = 0; i < 6; ++i) { u64 v; if (ss >> v) r.d[i] = v; }
+    reqs.push_back(r);
+  }
+  size_t pos = 0;
+  while (pos < reqs.size()) {
     int fd[2];
     if (pipe(fd)) return 3;
     fflush(stdout);
     pid_t pid = fork();
     if (pid == 0) {
       close(fd[0]);
-      Out out;
-      fn(N, M, P, Q, d, out);
-      std::string r = out.huge ? std::string("HUGE") : (out.s.empty() ? std::string("-") : out.s);
-      (void) !write(fd[1], r.data(), r.size());
-      _exit(0);
+      serve(reqs, pos, fd[1]);
     }
     close(fd[1]);
-    std::string r;
-    char buf[4096];
+    std::string buf;
+    char tmp[65536];
     ssize_t k;
-    while ((k = read(fd[0], buf, sizeof buf)) > 0) r.append(buf, k);
+    while ((k = read(fd[0], tmp, sizeof tmp)) > 0) buf.append(tmp, k);
     close(fd[0]);
     int st = 0;
     waitpid(pid, &st, 0);
-    if (!(WIFEXITED(st) && WEXITSTATUS(st) == 0)) r = "UB";
-    std::cout << "R " << r << std::endl;
+    // complete lines are results
+    size_t start = 0, nl;
+    while ((nl = buf.find('\n', start)) != std::string::npos && pos < reqs.size()) {
+      std::cout << "R " << buf.substr(start, nl - start) << "\n";
+      start = nl + 1;
+      ++pos;
+    }
+    if (pos < reqs.size() && !(WIFEXITED(st) && WEXITSTATUS(st) == 0)) {
+      // the child died while evaluating request `pos`
+      std::cout << "R UB\n";
+      ++pos;
+    } else if (pos < reqs.size() && start >= buf.size()) {
+      // clean exit without all results: should not happen
+      std::cout << "R HARNESSDIED\n";
+      ++pos;
+    }
   }
+  std::cout.flush();
   return 0;
 }
 '''
